@@ -178,6 +178,7 @@ def run(prop, tier="quick", seed=0, replay_path=None):
     E.case_suffix = ""
     E.current_props = [prop]
     E.tier = tier
+    os.environ["PYVC_TIER"] = tier          # bounded replays scale their search with the tier
     status = {"undecided": [], "out_of_reach": [], "errors": []}
     log = lambda *a: print(*a, file=sys.stderr, flush=True)
     try:
@@ -401,6 +402,30 @@ def run(prop, tier="quick", seed=0, replay_path=None):
                         viol_records.append({"obligation": "bounded:" + b["id"], "reproduced": True})
         except Exception:
             status["errors"].append(traceback.format_exc())
+
+    # thorough tier: the module's bounded replay is also run as an exploration of its own on the current tree (labelled bounded;
+    # it reaches the clauses the contracts do not: NOT_COVERED parts, compositions, histories)
+    if tier == "thorough" and hasattr(mod, "replay") and (getattr(mod, "REPLAY_UNDECIDED", False) or getattr(mod, "REPLAY_OUT_OF_REACH", False)) \
+            and not status["out_of_reach"]:
+        import types
+        from .sym import Obligation
+        pseudo = Obligation("%s/bounded-exploration" % prop, [prop], [], z3.BoolVal(True), meta={})
+        try:
+            rep = mod.replay(pseudo, types.SimpleNamespace(model={}))
+        except Exception:
+            rep = {"reproduced": False, "error": traceback.format_exc()}
+        bounded.append({"id": "thorough-bounded-exploration", "bounded": True, "replay": rep})
+        if rep and rep.get("reproduced"):
+            os.makedirs(replay_dir, exist_ok=True)
+            rp = os.path.join(replay_dir, "bounded-exploration.json")
+            json.dump({"property": prop, "obligation": pseudo.id, "bounded": True, "replay": rep}, open(rp, "w"), indent=1, default=str)
+            kn = [k for k in known if fnmatch.fnmatch("bounded:exploration", k["obligation"])
+                  and (not k.get("witness") or k["witness"] in json.dumps(rep, default=str))]
+            if kn:
+                out_lines.append("KNOWN-FINDING: property=%s %s [bounded exploration]" % (prop, kn[0]["what"]))
+            else:
+                out_lines.append("VIOLATION property=%s replay=%s" % (prop, rp))
+                viol_records.append({"obligation": pseudo.id, "reproduced": True})
 
     # a function that left the verifier's reach (refactored beyond the contract's object model, an unmodelled library call):
     # the module's bounded replay stands in - labelled bounded, never counted as discharged. A failure it reproduces on the real
